@@ -816,9 +816,9 @@ pub fn run(tier: &str, slice: (u64, u64), seed: u64, prop: &str) -> WorkerResult
     crate::shim::require();
     let mut res = WorkerResult::new("sched");
     let mut ps = programs(tier);
-    if tier == "quick" {
-        ps.retain(|(p, _)| relevant(p, prop));
-    }
+    // properties for which SCHED is a secondary engine run the relevant subset in both tiers (their thorough tier is deeper
+    // because the thorough program list is: more triples, four threads, two operations per thread, higher bounds)
+    ps.retain(|(p, _)| relevant(p, prop));
     let total = ps.len();
     let cap = if tier == "quick" { 4_000 } else { 60_000 };
     for (j, (p, bound)) in ps.iter().enumerate() {
@@ -833,7 +833,7 @@ pub fn run(tier: &str, slice: (u64, u64), seed: u64, prop: &str) -> WorkerResult
         }
     }
     if slice.0 == 0 {
-        res.completed.push(format!("{total} programs{}: all unordered pairs of single operations from a 17-op menu on 4 initial stores (N=10000) and on a=X with N=1 (rollover checkpoint inside every write): every interleaving, no preemption bound; three-thread programs with <= {} preemptions; two-ops-per-thread programs", if tier == "quick" && matches!(prop, "C13" | "C08" | "C07" | "C06" | "C20" | "C02") { format!(" (the subset of the following relevant to {prop})") } else { String::new() }, if tier == "quick" { 2 } else { 3 }));
+        res.completed.push(format!("{total} programs{}: all unordered pairs of single operations from a 17-op menu on 4 initial stores (N=10000) and on a=X with N=1 (rollover checkpoint inside every write): every interleaving, no preemption bound; three-thread programs with <= {} preemptions; two-ops-per-thread programs", if matches!(prop, "C13" | "C08" | "C07" | "C06" | "C20" | "C02") { format!(" (the subset of the following relevant to {prop})") } else { String::new() }, if tier == "quick" { 2 } else { 3 }));
     }
     res
 }
